@@ -338,21 +338,7 @@ def check(R):
                            {PR + '::update_session_timeout', PR + '::clear_session_timeout', PASE + '::record_pake_failure',
                             PASE + '::new', PASE + '::init', 'sc::pase::initiator::PaseInitiator::initiate'}, min_sites=2)
 
-        # the single establishment slot is taken over only by the exchange that owns it: while a (non-expired) entry exists, writing a
-        # new entry is cut by `entry.exch_id == exchange.id()` - every other exchange is answered Busy
-        ust = closure_in(R, PR + '::update_session_timeout', ['SessionEstTimeout::new'])
-        news = [t for t in ust.calls('sc::pase::SessionEstTimeout::new')]
-        R.floor('SessionEstTimeout::new in update_session_timeout', len(news), 2)
-        getm = [t for t in ust.calls('core::option::Option::as_mut', 'core::option::Option::as_ref') if any(f == 'session_timeout:' + PASE for f in src_fields(prims.sources(ust, t.d['a'][0])))]
-        R.floor('session_timeout.as_mut() in update_session_timeout', len(getm), 1)
-        own = set()
-        for (bb, neg, sa_, sb_, te, fe) in equality_tests(F, ust):
-            if any(f.startswith('exch_id:') for f in src_fields(sa_ | sb_)) and 'transport::exchange::Exchange::id' in src_calls(sa_ | sb_):
-                own |= te
-        for t in getm:
-            some = prims.track_result(F, ust, t).success
-            for (frm, to) in sorted(some):
-                R.cut_from('P2', ust, to, 'take over the occupied establishment slot', [n.bb for n in news], 'the occupying entry belongs to this very exchange (exch_id == exchange.id())', own)
+        slot_owner_rule(R)
 
     # ---- g ---------------------------------------------------------------------
     with R.clause('g'):
@@ -366,3 +352,39 @@ def check(R):
                     result_used(R, 'P8', b, (c,))
                     n += 1
         R.floor('P8 sites', n, 3)
+
+
+def slot_owner_rule(R):
+    """The single PASE establishment slot (Pase.session_timeout) is taken over - and its expiry moved - only by the exchange that owns it:
+    while an entry exists, everything that (re)writes the entry or its expiry is cut by `entry.exch_id == exchange.id()`; every other
+    exchange is answered Busy and leaves the slot as it found it (else a stream of refused attempts keeps an abandoned slot alive for good).
+    Shared by C02-f and C20."""
+    F = R.facts
+    SET = 'sc::pase::SessionEstTimeout'
+    ust = closure_in(R, PR + '::update_session_timeout', ['SessionEstTimeout::new'])
+    # every function that writes the expiry of an entry
+    exp_writers = sorted({F.owner_fn(b.fn) for b in F.bodies.values() if b.focus and list(b.field_writes('session_est_expiry:' + SET))} |
+                         {F.owner_fn(b.fn) for b in F.bodies.values() if b.focus and any(st[1].get('op') == 'agg' and st[1].get('adt') == SET for i, j, st in b.stmts())})
+    R.floor('functions writing SessionEstTimeout.session_est_expiry', len(exp_writers), 1)
+    R.confine('P1', 'functions that set the expiry of the establishment slot', set(exp_writers), {w for w in exp_writers if w.startswith(SET + '::')})
+    touch = [t for t in ust.calls() if any(n in exp_writers for n in t.callee_names())]
+    touch_bbs = sorted({t.bb for t in touch} | {i for i, j, st in ust.field_writes('session_est_expiry:' + SET)})
+    R.floor('(re)arming sites of the establishment slot in update_session_timeout', len(touch_bbs), 2)
+    getm = [t for t in ust.calls('core::option::Option::as_mut', 'core::option::Option::as_ref') if any(f == 'session_timeout:' + PASE for f in src_fields(prims.sources(ust, t.d['a'][0])))]
+    R.floor('session_timeout.as_mut() in update_session_timeout', len(getm), 1)
+    own = set()
+    for (bb, neg, sa_, sb_, te, fe) in equality_tests(F, ust):
+        if any(f.startswith('exch_id:') for f in src_fields(sa_ | sb_)) and 'transport::exchange::Exchange::id' in src_calls(sa_ | sb_):
+            own |= te
+    for t in getm:
+        some = prims.track_result(F, ust, t).success
+        for (frm, to) in sorted(some):
+            R.cut_from('P2', ust, to, 'take over the occupied establishment slot / move its expiry', touch_bbs, 'the occupying entry belongs to this very exchange (exch_id == exchange.id())', own)
+    # callers of the expiry writers outside update_session_timeout: only where a fresh entry is installed (PaseInitiator::initiate, tests excluded)
+    outside = set()
+    for w in exp_writers:
+        for c in F.callers_of(w):
+            o = F.owner_fn(c)
+            if not o.startswith(PR + '::update_session_timeout') and '::tests::' not in o and not o.startswith(SET + '::'):
+                outside.add(o)
+    R.confine('P1', 'callers (outside update_session_timeout) of the functions that arm the establishment slot', outside, {'sc::pase::initiator::PaseInitiator::initiate'})
